@@ -239,6 +239,48 @@ pub fn run(out: &mut Out, seed: u64, thorough: bool, scn: Option<&str>) {
         history(out, &mut rng, &pool, 0, "max_run", Some((Cfg::EnableMax(n), LA6, reps)));
     }
     history(out, &mut rng, &pool, 0, "disabled_run", Some((Cfg::Disable, LA3, 6)));
+    // A, then B through encap / encap_ext as a complete packet or as a first fragment (+ its continuation), then A
+    // again (and B again): the remembered label must follow what was actually put on the wire
+    for (a, b) in [(LA6, LB6), (LA6, Label::Broadcast), (LA3, LA6), (LB3, LA3)] {
+        for use_ext in [false, true] {
+            for fragmented in [false, true] {
+                let mgr = TableMgr { known: vec![(0x0042, false, 3)] };
+                let mut rx = mk_rx(out, "labels", "a_b_a", 3, 64, 3, mgr, true);
+                let mut enc = Encapsulator::new(DefaultCrc {});
+                let exts = [ExtSpec { id: 0x0211, data: vec![1, 2] }, ExtSpec { id: 0x0042, data: vec![7, 8, 9] }];
+                let t = ev_encap(out, &mut enc, &pool.small[0], 1, a, 0x0800, 64, None, None);
+                feed_tx(out, &mut rx, &t);
+                let buf = if fragmented { 30 } else { 100 };
+                let t = ev_encap(out, &mut enc, &pool.mid, 12, b, 0x0800, buf, if use_ext { Some(&exts) } else { None }, None);
+                feed_tx(out, &mut rx, &t);
+                let mut ctx = match &t.res {
+                    Some(Ok(EncapStatus::FragmentedPkt(_, c))) => Some(*c),
+                    _ => None,
+                };
+                // A again while B's PDU is still being fragmented, then finish B, then B and A again
+                let t = ev_encap(out, &mut enc, &pool.small[1], 1, a, 0x0800, 64, None, None);
+                feed_tx(out, &mut rx, &t);
+                let mut guard = 0;
+                while let Some(c) = ctx {
+                    guard += 1;
+                    if guard > 8 {
+                        break;
+                    }
+                    let t = ev_encap_frag(out, &enc, &pool.mid, &c, 40);
+                    ctx = match &t.res {
+                        Some(Ok(EncapStatus::FragmentedPkt(_, c2))) => Some(*c2),
+                        _ => None,
+                    };
+                    feed_tx(out, &mut rx, &t);
+                }
+                for lab in [b, a, a] {
+                    let t = ev_encap(out, &mut enc, &pool.small[2], 1, lab, 0x0800, 64, if use_ext { Some(&exts) } else { None }, None);
+                    feed_tx(out, &mut rx, &t);
+                }
+                rx.ev_drain(out);
+            }
+        }
+    }
     // the maximum is re-configured in the middle of a streak of re-uses (lowered, raised, same value)
     for (n1, n2) in [(3u8, 1u8), (2, 1), (3, 2), (255, 1), (1, 3), (2, 2), (4, 0), (0, 2)] {
         let mgr = TableMgr { known: vec![] };
